@@ -29,10 +29,10 @@ def make_replay(prop, unit, job, failures, geninfo):
     drv = (unit.get("replay") or {}).get(job["name"]) or (unit.get("replay") or {}).get("*")
     if drv:
         for (_, f) in failures:
-            if not f.get("trace"):
+            if not f.get("trace") and drv.get("vars"):
                 continue
             try:
-                ok, text = run_driver(drv, f["trace"], safe, job)
+                ok, text = run_driver(drv, f.get("trace") or {}, safe, job)
             except Exception as e:  # replay machinery problem: never a confirmation
                 ok, text = False, "replay driver error: %r" % (e,)
             rec["replay"] = {"driver": drv.get("template"), "obligation": f["name"], "confirmed": ok, "output": text[-4000:]}
